@@ -5,6 +5,7 @@ import SycVerif.Driver.Reactive
 import SycVerif.Driver.ListMapDrv
 import SycVerif.Driver.SsrDrv
 import SycVerif.Driver.AsyncDrv
+import SycVerif.Driver.DomDrv
 /-! Native driver: one request per line on stdin (`<engine> <op> <args…>`), one reply per line. -/
 open SycVerif.Driver
 
@@ -18,6 +19,7 @@ def dispatch (line : String) : String :=
   | "route" :: args => Route.handle args
   | "num" :: args => Num.handle args
   | "listmap" :: args => ListMapDrv.handle args
+  | "dom" :: args => DomDrv.handle args
   | _ => "bad-op"
 
 partial def loop (h : IO.FS.Stream) (out : IO.FS.Stream) : IO Unit := do
